@@ -346,7 +346,7 @@ fn gen_cases(ctx: &mut Ctx) -> Vec<Value> {
         push(&mut res, &mut rng, "delta", a, b);
     }
     // random
-    let n = ctx.budget(40, 1500);
+    let n = ctx.budget(40, 400);
     for _ in 0..n {
         let mix = 1 + rng.below(15);
         let na = [0, 1, 5, 40, 300, 700][rng.below(6) as usize] + rng.below(5) as usize;
